@@ -24,6 +24,9 @@ func (s *btSys) Do(o tt.Op) tt.Res {
 	case "remove":
 		s.t.Remove(o.A[0])
 		return tt.Res{Ok: true}
+	case "get": // an observer as a call of its own, between the edits
+		v, ok := s.t.Get(o.A[0])
+		return tt.Res{Ok: ok, V: v}
 	}
 	panic("btree driver: unknown op " + o.N)
 }
@@ -68,6 +71,9 @@ func btExplorer(depth int) *tt.Explorer {
 			var r []tt.Op
 			for _, k := range keys {
 				r = append(r, op("put", k, len(path)), op("remove", k))
+			}
+			if path[len(path)-1].N != "get" { // never two in a row
+				r = append(r, op("get", 1), op("get", 4))
 			}
 			return r
 		},
@@ -115,6 +121,13 @@ func init() {
 			s.Leaves += runs
 			s.Extra["linear_runs"] = runs
 			s.Extra["linear_nodes"] = n
+			if err := sparsePass(cfg, s, func(f string) (int, error) {
+				return mapLinear(cfg, f, runs, steps, 400, func(probe func() []int, full func() bool) tt.Sys {
+					return &btSys{probe: probe, full: full}
+				}, "put", "remove", false)
+			}); err != nil {
+				return nil, err
+			}
 			return s, nil
 		},
 		newSys: func(variant string) (func() tt.Sys, any) {
